@@ -200,3 +200,56 @@ def renum_atoms(atoms, mapping, missing=None):
             words.append(None)
         out.append(a)
     return out
+
+
+# ---------------------------------------------------------------------------------------------
+# hand-written text program files (C13 MERGE op, C15 textfile unit)
+
+def text_file_bytes(texts, fmt=None):
+    """
+    Bytes of a plain-text program file holding the line texts `texts` with legal layout
+    variations.  fmt = {'per': [{'e': empty lines before, 'b': length of a blanks-only line before
+    (0 = none), 'l': leading blanks before the line number, 'cr': bare CR instead of CR LF}, ...]
+    (indexed modulo), 'tail': empty lines behind the last line, 'brk': last line has a line break,
+    'eof': file ends with 1A}.  Lines of 255 characters always keep their line break.
+    """
+    fmt = fmt or {}
+    per = fmt.get('per') or [{}]
+    out = bytearray()
+    n = len(texts)
+    for i, t in enumerate(texts):
+        p = per[i % len(per)]
+        out += b'\r\n' * p.get('e', 0)
+        if p.get('b', 0):
+            out += b' ' * p['b'] + b'\r\n'
+        lead = p.get('l', 0)
+        if len(t) + lead > 255:
+            lead = max(0, 255 - len(t))
+        line = b' ' * lead + t
+        out += line
+        last = (i == n - 1)
+        brk = b'\r' if p.get('cr') else b'\r\n'
+        if not last or fmt.get('brk', True) or fmt.get('tail', 0) or len(line) >= 255:
+            out += brk
+    out += b'\r\n' * fmt.get('tail', 0)
+    if fmt.get('eof', True):
+        out += b'\x1a'
+    return bytes(out)
+
+
+def st_text_fmt():
+    """Hypothesis strategy for the fmt argument of text_file_bytes."""
+    from hypothesis import strategies as st
+    per = st.fixed_dictionaries({
+        'e': st.sampled_from([0, 0, 0, 1, 2]),
+        'b': st.sampled_from([0, 0, 0, 1, 3, 40]),
+        'l': st.sampled_from([0, 0, 0, 1, 2, 5]),
+        'cr': st.sampled_from([False, False, False, True]),
+    })
+    varied = st.fixed_dictionaries({
+            'per': st.lists(per, min_size=1, max_size=4),
+            'tail': st.sampled_from([0, 0, 1, 3]),
+            'brk': st.booleans(),
+            'eof': st.booleans(),
+        })
+    return st.integers(0, 3).flatmap(lambda k: st.just({}) if k == 0 else varied)
